@@ -452,7 +452,12 @@ def _sp_ncalls(eng, args, kw, n):
     return Conc(sum(1 for k, _ in eng.st.calls if k.endswith(name)))
 
 
-SPEC_BUILTINS = {"called": _sp_called, "callarg": _sp_callarg, "ncalls": _sp_ncalls, "cat": _sp_cat, "unit_if": _sp_unit_if, "seq": _sp_seq, "has": _sp_has, "implies": _sp_implies, "iff": _sp_iff, "dom": _sp_dom, "bit": _sp_bit, "pow2": _sp_pow2,
+def _sp_raised(eng, args, kw, n):
+    """raised('X'): in an exceptional postcondition, the class of the escaping exception is X"""
+    return Conc(getattr(eng, "cur_raised", None) == args[0].v)
+
+
+SPEC_BUILTINS = {"raised": _sp_raised, "called": _sp_called, "callarg": _sp_callarg, "ncalls": _sp_ncalls, "cat": _sp_cat, "unit_if": _sp_unit_if, "seq": _sp_seq, "has": _sp_has, "implies": _sp_implies, "iff": _sp_iff, "dom": _sp_dom, "bit": _sp_bit, "pow2": _sp_pow2,
                  "B": _sp_B, "V": _sp_V, "binfmt": _sp_binfmt, "sibling": _sp_sibling, "size": _sp_size,
                  "inv": _sp_inv, "setadd": _sp_setadd}
 
